@@ -1,0 +1,13 @@
+//go:build verif
+
+package hybridbuffer
+
+import "github.com/relex/slog-agent/base"
+
+// VerifPeek returns read-only observations of a bufferer created by this package: the lengths of the persistent
+// queue (inputChannel) and of the in-memory window (outputChannel), and whether Destroy has closed the input.
+// Used by the verification harness to log observables at quiescence; it changes nothing.
+func VerifPeek(b base.ChunkBufferer) (queued int, window int, inputClosed bool) {
+	buf := b.(*bufferer)
+	return len(buf.inputChannel), buf.feeder.NumOutput(), buf.inputClosed.Peek()
+}
